@@ -34,6 +34,9 @@ Readings of the statement adopted in the oracles (see also the comments next to 
    last item whatever it is).  A ListBox whose items do not fit in its view scrolls with the arrows and
    must then move the focus to keep it visible, also onto an unselectable item: exempt (counted as
    trivial); a ListBox whose items all fit is held to the clause.
+ * "offered only to widgets on the focus path" bounds where a key may go; it does not promise that the key
+   arrives.  "The key reaches the drawn focus leaf" is therefore its own check, key-delivered, listed in
+   INFORMATIONAL (observations, never violations).
  * "an unhandled key comes back unchanged": the value returned by the root is None or the key; a key
    bound to no command that no leaf consumed must come back.  The extra "and no focus moved" is not
    applied to ListBox (deferred focus choice, above).
@@ -84,7 +87,8 @@ RULES = {
     "focus-valid": "after construction, after every operation and after every render: every non-empty container reports a focus_position that is a valid position of the reference tree, .focus is the reference child at that position, .contents[position][0] is .focus, container[position] is focus.base_widget, the contents equal the reference list, and get_focus_path() equals the positions read level by level",
     "empty-no-focus": "an empty Pile/Columns/GridFlow/ListBox reports focus None, raises IndexError on reading focus_position, and get_focus_path() from it is []",
     "invalid-position": "assigning a position outside the valid ones (out of range, negative, None, a string, a non-integer, a list, a missing Frame part, Overlay position 0) raises IndexError and changes no focus anywhere; a valid assignment is accepted, is read back, and changes no other container",
-    "keypress-focus-path": "keypress(root) raises nothing; every leaf whose keypress is invoked lies on the focus path at that moment; when every widget on the focus path is selectable and the focus leaf is drawn, the key reaches that leaf",
+    "keypress-focus-path": "keypress(root) raises nothing; every leaf whose keypress is invoked lies on the focus path at that moment",
+    "key-delivered": "(informational, beyond the statement) when every widget on the focus path is selectable and the focus leaf is drawn, a keypress reaches a leaf on the focus path",
     "unhandled-key-unchanged": "the value returned by root.keypress is None or the key itself; when no leaf consumed it and it is not bound to a command it comes back unchanged and no focus moved; when a leaf consumed it the root returns None",
     "arrow-selectable": "after up/down/left/right every container whose focus changed has its focus on a child reporting selectable() (ListBox: only when all its items fit in its view, since a scrolling ListBox moves the focus to keep it visible); in a flat Pile/Columns/one-row GridFlow/fitting ListBox over plain leaves the focus goes to the nearest selectable child in the direction and the key is consumed, otherwise nothing moves and the key comes back",
     "selectable-after-edit": "directly after construction and after each contents edit (insert, delete, item/slice assignment, clearing, contents = ...) of a Pile, Columns or GridFlow, before any render: selectable() == any(child.selectable())",
@@ -93,6 +97,16 @@ RULES = {
     "focus-path-roundtrip": "set_focus_path(p) for a path p read earlier by get_focus_path() (no contents edit in between) restores p and the same focus leaf; set_focus_path of any valid path makes it a prefix of get_focus_path(); an invalid path (bad position, or continuing below a leaf) raises IndexError",
     "random-histories": "every clause above, evaluated at every step of seeded random histories on seeded random nestings of depth <= 3 (leaves S/U/E); non-exhaustive; failures carry the clause in `clause` and `sig`",
     "positions-enumerable": "iter(container) yields exactly the valid positions of the reference tree in order, len(container.contents) is their number, and for a Frame iter(frame.contents) yields the parts present",
+}
+
+# Checks whose failures are observations, not violations: clauses that read more into the statement than it says.
+#  key-delivered: the statement bounds where a key may go ("offered only to widgets on the focus path") and what
+#  happens to an unhandled key ("comes back unchanged"); it does not promise delivery.  Observed on this tree:
+#  Frame.keypress computes the body height from the *untrimmed* header/footer rows, so in a Frame squeezed until
+#  header + footer ask for every row the body is still drawn (render trims header/footer via frame_top_bottom)
+#  but keys are handed back instead of being passed to it.
+INFORMATIONAL = {
+    f"{ID}/key-delivered": "delivery of a key to the drawn focus leaf is a reading beyond the statement (which only says keys go nowhere else and unhandled keys come back); Frame.keypress hands keys back when untrimmed header+footer rows fill the frame although render still shows the body",
 }
 
 # sub-trees that an edit may insert (besides plain leaves)
@@ -194,6 +208,19 @@ def _sigmsg(e):
     m = re.sub(r"[0-9]+", "N", m)
     m = re.sub(r"[^A-Za-z_]+", "-", m).strip("-")
     return f"raised-{type(e).__name__}-{m[:44]}"
+
+
+def _where(e):
+    """"file.py:function" of the innermost frame inside the urwid package that the exception passed through."""
+    out = ""
+    tb = e.__traceback__
+    pkg = os.path.dirname(os.path.abspath(urwid.__file__)) + os.sep
+    while tb is not None:
+        code = tb.tb_frame.f_code
+        if os.path.abspath(code.co_filename).startswith(pkg):
+            out = f"{os.path.basename(code.co_filename)}:{code.co_name}"
+        tb = tb.tb_next
+    return out
 
 
 class H:
@@ -368,7 +395,13 @@ class H:
         return out
 
     def raised(self, check, what, e, sig=None):
-        self.rec(check, False, f"{what} raised {_exc(e)}", sig or _sigmsg(e), zero_rows=self.zero_rows(), exc=type(e).__name__)
+        # `where`: innermost urwid frame the exception came from ("file.py:function") - two different defects can
+        # raise the same type and message (e.g. "cannot unpack non-iterable NoneType object"), and a known finding
+        # must be able to tell them apart
+        # The signature carries the discriminators too (raising site, presence of a zero-row container): only one
+        # representative per signature is reported, so two causes must never share a signature.
+        where, zero = _where(e), self.zero_rows()
+        self.rec(check, False, f"{what} raised {_exc(e)}", f"{sig or _sigmsg(e)}@{where}{'+zero-rows' if zero else ''}", zero_rows=zero, exc=type(e).__name__, where=where)
         raise Stop from e
 
     # ------------------------------------------------------------------ invariants
@@ -559,7 +592,11 @@ class H:
                 # the first key after construction may legitimately be preceded by a ListBox settling its focus
                 # ("first selectable"), so the leaf that must be reached is the focus leaf at call time, which the
                 # hook already tests; here: *some* leaf on the path got the key
-                self.rec("keypress-focus-path", got or bool(log), f"every widget on the focus path is selectable and focus leaf {leaf.name} is drawn, but keypress({key!r}) reached no leaf", "not-delivered")
+                # Oracle correction: this clause used to be part of keypress-focus-path.  The statement only says a
+                # keypress is offered *only to* widgets on the focus path and that an unhandled key comes back
+                # unchanged; it does not say the key must *reach* the focus leaf.  Delivery is a reading beyond the
+                # statement, so it is recorded under its own check name, listed in INFORMATIONAL.
+                self.rec("key-delivered", got or bool(log), f"every widget on the focus path is selectable and focus leaf {leaf.name} is drawn, but keypress({key!r}) reached no leaf", "not-delivered")
         # returned value
         consumed = [n.name for n, _k, ret, _o in log if ret is None]
         cmd = urwid.command_map[key]
@@ -697,7 +734,8 @@ class H:
             self.rec("invalid-position", False, f"{lab} (valid positions {valid_focus_positions(n.kind, len(n.kids or ()), tuple(cm))}) was accepted", f"invalid-accepted-{n.kind}", valid=False)
             raise Stop
         if not isinstance(err, IndexError):
-            self.rec("invalid-position", False, f"{lab} raised {_exc(err)} instead of IndexError", f"invalid-raised-{type(err).__name__}-{n.kind}-{type(val).__name__}", valid=False)
+            self.rec("invalid-position", False, f"{lab} raised {_exc(err)} instead of IndexError", f"invalid-raised-{type(err).__name__}-{n.kind}-{type(val).__name__}@{_where(err)}", valid=False,
+                     exc=type(err).__name__, kind=n.kind, value_type=type(val).__name__, where=_where(err))
             raise Stop
         self.rec("invalid-position", after == before, f"{lab} raised IndexError but focus state changed", "invalid-changed-state", valid=False)
 
@@ -711,6 +749,18 @@ class H:
                 return False
             n = cm[p]
         return True
+
+    def first_invalid_type(self, path):
+        """Type name of the first position of `path` that is not valid where it is used ("" when the path runs below a leaf)."""
+        n = self.root
+        for p in path:
+            if n.is_leaf():
+                return ""
+            cm = n.children()
+            if not is_valid_position(n.kind, p, len(n.kids or ()), tuple(cm)):
+                return type(p).__name__
+            n = cm[p]
+        return ""
 
     def op_setpath(self, path):
         valid = self.path_valid(path)
@@ -733,7 +783,8 @@ class H:
             self.rec("focus-path-roundtrip", False, f"invalid {lab} was accepted", "invalid-path-accepted", valid=False)
             raise Stop
         if not isinstance(err, IndexError):
-            self.rec("focus-path-roundtrip", False, f"invalid {lab} raised {_exc(err)} instead of IndexError", f"invalid-path-raised-{type(err).__name__}", valid=False)
+            self.rec("focus-path-roundtrip", False, f"invalid {lab} raised {_exc(err)} instead of IndexError", f"invalid-path-raised-{type(err).__name__}-{self.first_invalid_type(path)}@{_where(err)}", valid=False,
+                     exc=type(err).__name__, value_type=self.first_invalid_type(path), where=_where(err))
             raise Stop
         self.rec("focus-path-roundtrip", True, valid=False)
 
@@ -900,14 +951,22 @@ class H:
             finally:
                 CanvasCache.clear()
             end2 = self.chain()[-1]
+            # which container's focus did the render change (first level at which the paths differ), and does it sit
+            # below a ListBox?  Part of the signature: one representative is kept per signature.
+            d = next((i for i, (x, y) in enumerate(zip(path, got2)) if x != y), min(len(path), len(got2)))
+            changed_kind = path_kinds[d] if d < len(path_kinds) else "leaf"
+            below_listbox = "ListBox" in path_kinds[:d]
             self.rec(
                 "focus-path-roundtrip",
                 got2 == path and end2 is leaf,
                 f"path {path!r} read after step {i0} (settled by a render) and written back after step {len(self.ops_done)}: after the next render get_focus_path() = {got2!r}, focus leaf {end2.name or end2.kind}",
-                "roundtrip-after-render",
+                f"roundtrip-after-render-{changed_kind}-{'below-ListBox' if below_listbox else 'no-ListBox-above'}",
+                changed_kind=changed_kind,
+                below_listbox=below_listbox,
                 nontrivial=bool(path),
                 read_after_step=i0,
                 path_kinds=path_kinds,
+                path=path,
                 path_after_render=got2,
             )
 
@@ -1141,7 +1200,9 @@ class Acc:
     def add(self, h, ops, as_check=None):
         per = {}
         for check, ok, why, sig, nontrivial, extra in h.out:
-            if as_check is not None:
+            # informational clauses keep their own check name also inside the random histories, otherwise an
+            # observation would turn into a violation of random-histories
+            if as_check is not None and f"{ID}/{check}" not in INFORMATIONAL:
                 sig, extra, check = f"{check}:{sig}", dict(extra, clause=check), as_check
             self.ev[check] = self.ev.get(check, 0) + 1
             per.setdefault(check, False)
@@ -1360,7 +1421,7 @@ def run(tier="quick", seed=0):
         res = c.result()
         bysig = fails.get(name, {})
         # one (smallest) representative per failure signature, most frequent first
-        res["failures"] = [dict(d, occurrences=cnt) for _sig, (cnt, d) in sorted(bysig.items(), key=lambda kv: -kv[1][0])][:20]
+        res["failures"] = [dict(d, occurrences=cnt) for _sig, (cnt, d) in sorted(bysig.items(), key=lambda kv: -kv[1][0])][:60]  # one per signature; random-histories prefixes the clause, so it can exceed 20
         res["failure_signatures"] = {sig: cnt for sig, (cnt, _d) in bysig.items()}
         res["histories"] = histories
         res["cpu_s_all_checks"] = cpu_s
